@@ -352,8 +352,14 @@ func (it *Interp) symIntBinop(op token.Token, w uint8, signed bool, x, y Value) 
 	case token.AND_NOT:
 		r = s.Bin(smt.OpAnd, a, s.Un(smt.OpNot, b))
 	case token.EQL:
+		if w == 32 && it.crcForgery(x, y) {
+			return false
+		}
 		return simp(s.Eq(a, b), false)
 	case token.NEQ:
+		if w == 32 && it.crcForgery(x, y) {
+			return true
+		}
 		return simp(s.Not(s.Eq(a, b)), false)
 	case token.LSS:
 		return simp(s.Cmp(cmpOp(true, signed), a, b), false)
